@@ -26,6 +26,7 @@ import Nice.Model.PseudoSsl
 import Nice.Model.Rfc4571
 import Nice.Model.SendQueue
 import Nice.Model.SockFeed
+import Nice.Model.Turn
 import Nice.Drv.Util
 namespace Nice.Drv
 open Nice.Sock
@@ -45,6 +46,7 @@ structure SockSt where
   real    : Bool := false     -- this session's base is the real tcp-bsd socket
   useReal : Bool := false     -- `sock base real` seen
   rq      : Nice.SendQueue.St := {}       -- real base: the tcp-bsd send queue below the layer
+  turn    : Option Nice.Turn.St := none
   rk      : Nice.SendQueue.Kernel := {}
 
 private def hexL (bs : Bytes) : String := hexOf bs.toArray
@@ -190,8 +192,114 @@ private def isNone : SockLayer → Bool
   | .none => true
   | _ => false
 
+/-! ### `sock turn …` : TURN client socket (C16), see harness/sock_drv.c for the protocol -/
+
+def turnPeers : List Nice.Turn.PeerAddr :=
+  [{ ipv6 := false, addr := [10, 1, 1, 1], port := 1111 }, { ipv6 := false, addr := [10, 1, 1, 2], port := 2222 },
+   { ipv6 := true, addr := [0x20, 0x01, 0x0d, 0xb8, 0, 0, 0, 0, 0, 0, 0, 0, 0, 0, 0, 2], port := 3333 },
+   { ipv6 := false, addr := [10, 1, 1, 1], port := 1112 }]
+
+private def hexN (n : Nat) : String := String.ofList (Nat.toDigits 16 n)
+
+private def turnState (t : Nice.Turn.St) : String :=
+  let ch := joinC (t.channels.map fun (p, c) => s!"{p}:{hexN c}")
+  let cur := match t.cur with | some (p, c) => s!"{p}:{hexN c}" | none => "-"
+  let q := joinC ((List.range 4).filterMap fun i =>
+    match t.queues.find? (·.1 == i) with | some (_, l) => some s!"{i}:{l.length}" | none => none)
+  s!"ch=[{ch}] cur={cur}/{b2n t.curMsg.isSome} pend=[{joinC (t.pendB.map toString)}] perm=[{joinC (t.perms.map toString)}] " ++
+  s!"sent=[{joinC (t.sentPerms.map toString)}] pp={t.pendPerms.length} q=[{q}] frag=-1" ++ (if t.fault then " FAULT" else "")
+
+private def downStr : Nice.Turn.Down → String
+  | .raw b => hexL b
+  | .cp seq peer auth => s!"CP({seq},{peer},{b2n auth})"
+  | .cb seq chan peer auth => s!"CB({seq},{hexN chan},{peer},{b2n auth})"
+
+private def turnLine (t : Nice.Turn.St) (o : Nice.Turn.Out) : String :=
+  let up := joinC (o.up.map fun (src, d) => (match src with | some p => toString p | none => "s") ++ ":" ++ hexL d)
+  s!"ret {o.ret} up [{up}] down [{joinC (o.down.map downStr)}] state {turnState t}"
+
+/-- the relay datagrams the model covers: anything the STUN agent does not accept as a message
+    (fewer than 20 bytes or first two bits not 00), and well-formed Data indications
+    `0017 len cookie txid | 0012 XOR-PEER-ADDRESS | 0013 DATA` naming a peer of the table -/
+private def classifyDgram (b : Bytes) : Option (Option (Nat × Bytes)) :=
+  if b.length < 20 || (b.getD 0 0).toNat ≥ 0x40 then some none
+  else
+    let txid := (b.drop 8).take 12
+    if b.take 2 != [0x00, 0x17] || (b.drop 4).take 4 != Nice.Turn.STUN_MAGIC_COOKIE then none
+    else
+      let body := b.drop 20
+      if be16 (b.getD 2 0) (b.getD 3 0) != body.length then none
+      else
+        (List.range 4).findSome? fun i =>
+          match turnPeers[i]? with
+          | none => none
+          | some pa =>
+            let a1 := Nice.Turn.attr 0x0012 (Nice.Turn.xorPeerValue pa txid)
+            if body.take a1.length != a1 then none
+            else
+              let rest := body.drop a1.length
+              if rest.take 2 != [0x00, 0x13] then none
+              else
+                let dl := be16 (rest.getD 2 0) (rest.getD 3 0)
+                let data := (rest.drop 4).take dl
+                if rest == Nice.Turn.attr 0x0013 data && data.length == dl then some (some (i, data)) else none
+
+def turnStep (st : SockSt) (ws : List String) : SockSt × String :=
+  match ws with
+  | ["new", c, rel] =>
+    let c? : Option Nice.Turn.Compat := match c with | "draft9" => some .draft9 | "rfc5766" => some .rfc5766 | _ => none
+    match c?, rel with
+    | some c, "0" =>
+      let t : Nice.Turn.St := { compat := c, peers := turnPeers }
+      ({ useReal := false, turn := some t }, turnLine t { ret := 0 })
+    | _, _ => ({}, "unmodelled")
+  | _ =>
+    match st.turn with
+    | none => (st, "bad-op")
+    | some t =>
+      let fin (r : Nice.Turn.Out × Nice.Turn.St) : SockSt × String := ({ st with turn := some r.2 }, turnLine r.2 r.1)
+      match ws with
+      | [op, p, hs] =>
+        match p.toNat?, op with
+        | some pi, "send" | some pi, "sendr" =>
+          if pi > 3 then (st, "bad-op") else
+          match parseBufs hs with
+          | some bufs => fin (Nice.Turn.send t pi bufs (op == "sendr"))
+          | none => (st, "bad-op")
+        | some pi, "from" =>
+          if pi > 3 then (st, "bad-op") else
+          match parseHex hs with
+          | some b => fin (Nice.Turn.recvPlain t b.toList (some pi))
+          | none => (st, "bad-op")
+        | _, _ => (st, "bad-op")
+      | ["setpeer", p] =>
+        match p.toNat? with
+        | some pi => if pi > 3 then (st, "bad-op") else fin (Nice.Turn.setPeer t pi)
+        | none => (st, "bad-op")
+      | ["dgram", h] =>
+        match parseHex h with
+        | some b =>
+          match classifyDgram b.toList with
+          | some none => fin (Nice.Turn.recvPlain t b.toList none)
+          | some (some (peer, data)) => fin (Nice.Turn.recvDataIndication t peer data)
+          | none => (st, "unmodelled")
+        | none => (st, "bad-op")
+      | ["reply", m, seq, code] =>
+        let c? : Option Nice.Turn.Code := match code with
+          | "ok" => some .ok | "e400" => some .e400 | "e401" => some .e401 | "e438" => some .e438 | "e403" => some .e403 | _ => none
+        match seq.toNat?, c? with
+        | some seq, some c =>
+          if m == "cp" then
+            if seq < t.cpReqs.length then fin (Nice.Turn.replyCp t seq c) else (st, "bad-op")
+          else if m == "cb" then
+            if seq < t.cbReqs.length then fin (Nice.Turn.replyCb t seq c) else (st, "bad-op")
+          else (st, "bad-op")
+        | _, _ => (st, "bad-op")
+      | _ => (st, "bad-op")
+
 def sockStep (st : SockSt) (ws : List String) : SockSt × String :=
   match ws with
+  | "turn" :: rest => turnStep st rest
   | ["base", k] => ({ st with useReal := k == "real" }, "ok")
   | "new" :: rest =>
     match newLayer st rest with
